@@ -11,9 +11,12 @@
  *      "e pid t 0" function returns, "x pid t <v|stop>" exit / stop-self; then a state dump at quiescence.
  */
 #include <inttypes.h>
+#include <signal.h>
 #include <stdio.h>
 #include <stdlib.h>
 #include <string.h>
+#include <sys/resource.h>
+#include <unistd.h>
 
 #include "cmb_buffer.h"
 #include "cmb_condition.h"
@@ -95,6 +98,9 @@ static void *procfunc(struct cmb_process *self, void *vctx)
         else if (!strcmp(o, "tset")) { VAR(a1) = cmb_process_timer_set(self, (double)a2, a3); RETX(0, "h=%" PRIu64, VAR(a1)); }
         else if (!strcmp(o, "tcancel")) { if (VAR(a1) == 0u) SKIP(); else RET(cmb_process_timer_cancel(self, VAR(a1)) ? 1 : 0); }
         else if (!strcmp(o, "tclear")) { cmb_process_timers_clear(self); RET(0); }
+        /* the timer API applied to ANOTHER process (typically suspended in a wait, its awaits list holding non-timer entries too) */
+        else if (!strcmp(o, "tclearo")) { if (!running((int)a1)) SKIP(); else { cmb_process_timers_clear(&procs[a1]); RET(0); } }
+        else if (!strcmp(o, "taddo")) { if (!running((int)a1)) SKIP(); else { const uint64_t h = cmb_process_timer_add(&procs[a1], (double)a2, a3); RETX(0, "h=%" PRIu64, h); } }
         else if (!strcmp(o, "resume")) { if (!running((int)a1) || a2 == 0) SKIP(); else { cmb_process_resume(&procs[a1], a2); RET(0); } }
         else if (!strcmp(o, "intr")) { if (!running((int)a1) || a2 == 0) SKIP(); else { cmb_process_interrupt(&procs[a1], a2, a3); RET(0); } }
         else if (!strcmp(o, "stop")) {
@@ -241,9 +247,27 @@ static void teardown(void)
     free(pctx);
 }
 
+/* A scenario is at most DISPATCH_CAP events of a few calls each: milliseconds of CPU time. A library call that does not return
+ * (an endless loop over a corrupted list) would otherwise cost the caller its whole wall-clock time-out for every such scenario;
+ * the CPU-time limit turns it into an abnormal termination with a message, within seconds and independent of the machine load. */
+#define CPU_LIMIT_SECONDS 3
+static void on_cpu_limit(int sig)
+{
+    (void)sig;
+    static const char msg[] = "ERROR: simdrv: CPU time limit exceeded - a library call does not return (endless loop)\n";
+    if (write(2, msg, sizeof msg - 1) < 0) { /* nothing to be done */ }
+    _exit(3);
+}
+
 int main(void)
 {
     char line[256];
+    struct sigaction sa;
+    memset(&sa, 0, sizeof sa);
+    sa.sa_handler = on_cpu_limit;
+    (void)sigaction(SIGXCPU, &sa, NULL);
+    const struct rlimit rl = { CPU_LIMIT_SECONDS, CPU_LIMIT_SECONDS + 2 };
+    (void)setrlimit(RLIMIT_CPU, &rl);
     cmb_logger_flags_off(CMB_LOGGER_INFO);
     cmb_logger_flags_off(CMB_LOGGER_WARNING);
     cmb_event_queue_initialize(0.0);
